@@ -323,9 +323,27 @@ def prog_lookback(rng, **kw):
     return prog
 
 
+def prog_nested09_bankrupt(rng, **kw):
+    """C09 under a parent that goes bankrupt: the root is levered into a ticker that
+    collapses; the sub-strategy's own tickers keep moving on the dates after."""
+    prog = base_prog(rng, T=rng.randint(7, 9), cols=["a", "b", "c"], **kw)
+    T = prog["T"]
+    k = rng.randint(2, T - 3)
+    pa = prog["px"]["a"]
+    prog["px"]["a"] = pa[:k] + [max(1, pa[k] // rng.choice([3, 5, 10]))] * (T - k)
+    sub_w = rng.choice([{"b": 0.5, "c": 0.5}, {"b": 1.0}, {"b": 0.25, "c": 0.5}])
+    kid = {"name": "k1", "algos": [list(rng.choice(CAL_SCHEDULERS[:2])), ["WeighSpecified", {"w": sub_w}], ["Rebalance", {}]], "children": ["b", "c"]}
+    top_w = {"a": float(rng.choice([2, 2.5, 3])), "k1": float(rng.choice([Fraction(1, 2), Fraction(1, 4), Fraction(1)]))}
+    prog["tree"] = {"name": "r", "algos": [["RunOnce", {}], ["WeighSpecified", {"w": top_w}], ["Rebalance", {}]], "children": [kid, "a"]}
+    prog["family"] = "nested09:bankrupt"
+    return prog
+
+
 def prog_nested09(rng, **kw):
     """C09: nested trees whose sub-strategies are calendar-gated; parents with
     allocation schedules incl. never / late / partial / withdrawing."""
+    if rng.random() < 0.15:
+        return prog_nested09_bankrupt(rng, **kw)
     prog = prog_nested(rng, **kw)
     top = [c["name"] for c in prog["tree"]["children"] if isinstance(c, dict)]
     mode = rng.choice(["asis", "never", "late", "once", "withdraw"])
@@ -371,7 +389,60 @@ def prog_fi(rng, **kw):
     return prog
 
 
-FAMILIES = {"fi": prog_fi, "nested09": prog_nested09, "lookback": prog_lookback, "flat": prog_flat, "nested": prog_nested, "bankrupt": prog_bankrupt, "flows": prog_flows}
+def prog_risk(rng, **kw):
+    """Risk-hedging strategies: positions in a..b, unit risks per measure published
+    in frames of their own (one may carry history from before the price data, so
+    the frames' row numbers differ), the residual risk hedged with c, d (C04)."""
+    T = rng.randint(8, 12)
+    cols = ["a", "b", "c", "d"]
+    prog = {"T": T, "cols": cols, "px": {c: walk_prices(rng, T) for c in cols}, "extra": {},
+            "bt": {"capital": 100000, "integer": False, "comm": COMMS["zero"]}}
+    measures = ["m1", "m2"] if rng.random() < 0.8 else ["m1"]
+    frames = {}
+    for j, m in enumerate(measures):
+        lead = rng.choice([0, 0, 2, 3]) if j == 0 else rng.choice([0, 0, 1])
+        tab = {c: [rng.choice([1, 2, 3, 0.5, 1.5, -1, 4]) for _ in range(lead + T)] for c in cols}
+        if lead:
+            tab["__lead__"] = lead
+        frames[m] = tab
+    prog["extra"]["unit_risk"] = {"__group__": True, "frames": frames}
+    w = {"a": float(rng.choice([Fraction(1, 2), Fraction(1, 4)])), "b": float(rng.choice([Fraction(1, 4), Fraction(0), Fraction(-1, 4)]))}
+    inst = ["c", "d"][: len(measures)]
+    st = [list(rng.choice([("RunDaily", {}), ("RunEveryNPeriods", {"n": 2})])), ["WeighSpecified", {"w": w}], ["Rebalance", {}]]
+    st += [["UpdateRisk", {"measure": m}] for m in measures]
+    st += [["SelectThese", {"tickers": inst, "include_no_data": True}], ["HedgeRisks", {"measures": measures}]]
+    st += [["UpdateRisk", {"measure": m}] for m in measures]
+    prog["tree"] = {"name": "r", "algos": st, "children": list(cols)}
+    prog["family"] = "risk"
+    return prog
+
+
+def prog_cashstep(rng, **kw):
+    """A portfolio that sits exactly on its target weights (whole units that divide
+    the capital, no costs) and from some date on is asked to hold a cash fraction
+    as well: the targets become (1 - cash) * weight while the weights stay."""
+    T = rng.randint(5, 8)
+    if rng.random() < 0.5:
+        cols = ["a"]
+        px = {"a": walk_prices(rng, T)}
+        w = {"a": 1.0}
+        capital = px["a"][0] * rng.choice([100, 250, 400])
+    else:
+        cols = ["a", "b"]
+        pa, pb = rng.choice([10, 20, 25]), rng.choice([10, 40, 50])
+        px = {"a": [pa] * T, "b": [pb] * T}   # flat prices: nobody drifts off target
+        w = rng.choice([{"a": 0.5, "b": 0.5}, {"a": 0.25, "b": 0.75}, {"a": 1.0, "b": 0.0}])
+        capital = pa * pb * rng.choice([40, 100])
+    prog = {"T": T, "cols": cols, "px": px, "extra": {},
+            "bt": {"capital": capital, "integer": True, "comm": COMMS["zero"]}}
+    start = rng.randint(2, T - 1)
+    c = float(rng.choice([Fraction(1, 5), Fraction(1, 2), Fraction(3, 10), Fraction(1, 10)]))
+    st = [["RunDaily", {}], ["WeighSpecified", {"w": w}], ["SetCash", {"c": c, "start": start}], ["Rebalance", {}]]
+    prog["tree"] = {"name": "r", "algos": st, "children": list(cols) if rng.random() < 0.5 else []}
+    return prog
+
+
+FAMILIES = {"risk": prog_risk, "cashstep": prog_cashstep, "fi": prog_fi, "nested09": prog_nested09, "lookback": prog_lookback, "flat": prog_flat, "nested": prog_nested, "bankrupt": prog_bankrupt, "flows": prog_flows}
 
 
 def prog_by_family(seed, i, family):
